@@ -122,8 +122,15 @@ def inlined(fx, fn, depth=3, stop=(), _seen=None, _cache={}):
             f = t.get("fn") or {}
             p = f.get("path")
             g = fx.fns.get(p)
-            if g is None or g.is_closure or p in seen or p in stop or f.get("kind") not in (None, "item"):
+            if g is None or p in seen or p in stop or f.get("kind") not in (None, "item"):
                 continue
+            closure_call = False
+            if g.is_closure:
+                # a closure called directly by the function that made it (`let f = || ..; f()`): Fn*::call(env, (args,))
+                if f.get("orig") not in ("core::ops::function::Fn::call", "core::ops::function::FnMut::call_mut",
+                                         "core::ops::function::FnOnce::call_once") or len(t["args"]) != 2:
+                    continue
+                closure_call = True
             if g.from_expansion:
                 continue        # derived impls (PartialEq::eq, Clone::clone, ...) stay calls: rules name them by trait item
             if len(blocks) + len(g.blocks) > MAX_BLOCKS:
@@ -143,9 +150,18 @@ def inlined(fx, fn, depth=3, stop=(), _seen=None, _cache={}):
             bo = entry + 1
             ret_block = bo + len(gi.blocks) if t.get("target") is not None else None
             estmts = []
-            for i, a in enumerate(t["args"]):
-                if i < gi.argc:
-                    estmts.append({"lhs": {"l": lo + i + 1}, "rv": {"k": "use", "op": a}, "span": t["span"]})
+            if closure_call:
+                estmts.append({"lhs": {"l": lo + 1}, "rv": {"k": "use", "op": t["args"][0]}, "span": t["span"]})
+                tup = t["args"][1].get("mv") or t["args"][1].get("cp")
+                for i in range(gi.argc - 1):
+                    if tup is None:
+                        break
+                    pl = {"l": tup["l"], "p": list(tup.get("p", [])) + [{"f": i}]}
+                    estmts.append({"lhs": {"l": lo + 2 + i}, "rv": {"k": "use", "op": {"mv": pl}}, "span": t["span"]})
+            else:
+                for i, a in enumerate(t["args"]):
+                    if i < gi.argc:
+                        estmts.append({"lhs": {"l": lo + i + 1}, "rv": {"k": "use", "op": a}, "span": t["span"]})
             blocks.append({"stmts": estmts, "term": {"k": "goto", "target": bo, "span": t["span"]}, "origin": fn.path,
                            "inline_entry": p})
             _POFF[0] = len(proms)
